@@ -29,6 +29,8 @@ RULE = ("addr: structured generator (atoms, quoted strings, quoted pairs, routes
         "handler on the real router (list, show, source, mark-seen, delete, purge) and a real POP3 session (USER <address>). "
         "hist: histories of naming calls (NewRecipient, ExtractMailbox, MailboxForAddress, SMTP delivery, REST list, POP3 USER) executed in order in one process "
         "on one goroutine with GOMAXPROCS(1), refused strings immediately followed by accepted ones; every answer must be that of the call alone. "
+        "sweep: long histories of MailboxForAddress (the target re-asked after EVERY one of 7000 distinct other lookups, and after exactly N others "
+        "for N around powers of two and ten up to 10 001); the target's name must never change. "
         "lower: strings.ToLower on ASCII-only strings (the go_tolower model). valid: ValidateDomainPart on arbitrary byte strings (multi-byte runes, invalid UTF-8). "
         "addr additionally: every ordinary address (Model/AddrSpec.v) must be accepted under the documented name. "
         "distinct = distinct input line; non-trivial = accepted by NewRecipient in at least one mode (addr, pop3, live), "
@@ -76,6 +78,8 @@ def nontrivial(kind, ins, outs):
         return bool(outs) and outs[0] == "1"
     if kind == "live":
         return len(outs) >= 2 and outs[1] == "250"
+    if kind == "sweep":
+        return len(outs) >= 2 and outs[1].startswith("S")
     if kind == "hist":
         return any(o.startswith("S") or o.startswith("250") for o in outs[1:])
     if kind == "lower":
@@ -104,6 +108,15 @@ def _byte_cuts(x):
 def shrink_candidates(inp):
     parts = inp.split(" ")
     kind, f = parts[0], parts[1:]
+    if kind == "sweep":
+        mode, target, n, dense = f[0], f[1], int(f[2]), f[3]
+        for n2 in (n // 2, n - 1000, n - 100, n - 10, n - 1):
+            if 1 <= n2 < n:
+                yield " ".join([kind, mode, target, str(n2), dense])
+        for y in _byte_cuts(target):
+            if y:
+                yield " ".join([kind, mode, y, str(n), dense])
+        return
     if kind == "hist":
         mode, els = f[0], f[1:]
         # fewer calls first (the failing input is the shortest history that still shows the dependence) ...
